@@ -27,6 +27,7 @@ func c12(c *q.Ctx) {
 	la.GuardedBy("refCounter.ctMap", "refCounter.mu", ctor, 3)
 	la.GuardedBy("UtxoVM.BalanceCache", "UtxoVM.mutexBalance", ctor, 5)
 	la.GuardedBy("UtxoVM.BalanceViewDirty", "UtxoVM.mutexBalance", ctor, 5)
+	la.GuardedElems("UtxoVM.BalanceCache", "UtxoVM.mutexBalance", "LRUCache.Get", 2)
 	la.GuardedBy("Meta.Meta", "Meta.MutexMeta", ctor, 8)
 	la.GuardedBy("Meta.MetaTmp", "Meta.MutexMeta", ctor, 8)
 	la.Order()
@@ -77,6 +78,10 @@ func c12(c *q.Ctx) {
 		c.Guard(tl, q.Cond{Canon: "(1 == p1[].lockType)", Sense: false}, q.ToSuccess(), q.Opt{Under: []q.Cond{{Canon: "sync.(*Map).LoadOrStore(p0.m,p1[].key,p1[].lockType)#1", Sense: true}}})
 		c.ArgIs(tl, "Map.LoadOrStore", 1, "p1[].key", 1, "the lock table is keyed by the lock key")
 		c.Effect(tl, q.Eff{Spec: "refCounter.Add", Arg: 0, Glob: "p1[].key", Req: []q.Cond{{Canon: "(1 == p1[].lockType)", Sense: true}}, Why: "every shared holder is counted", Rule: "K2"})
+		// TryLock is not all-or-nothing: the caller releases exactly the returned list, so whatever TryLock took - a
+		// reference on a shared key, a fresh table entry - must be in that list before any exit
+		c.Then(tl, q.ToCall("refCounter.Add"), q.ToCall("append"), q.ToAnyReturn(), nil, "a counted shared hold is in the list the caller will release")
+		c.Then(tl, q.ToCall("Map.LoadOrStore"), q.ToCall("append"), q.ToAnyReturn(), []q.Cond{{Canon: "sync.(*Map).LoadOrStore(p0.m,p1[].key,p1[].lockType)#1", Sense: true}}, "a key entered into the lock table is in the list the caller will release")
 	}
 	ul := c.Fn(ut + "(*SpinLock).Unlock")
 	if ul != nil {
